@@ -1100,7 +1100,7 @@ func c19RegroupOp(e *gnode, comm map[string]bool) string {
 }
 
 func runC19(c *Ctx) {
-	c.rule = "bounded-exhaustive on the implementation: every boolean expression with <= 3 (quick) / <= 4 (thorough) operator nodes (prefix !, binary ^ = | &) over {a,b,c,true,false}, minimal-parenthesis and fully parenthesised renderings, plus every let/if form with <= 2 / <= 3 nodes (let names fresh, by nesting depth; the 3-node forms with minimal parentheses only), x all 8 assignments x optimizer on/off (separate child processes), against direct evaluation of the tree; float expressions: every tree with <= 2 (quick) / <= 3 (thorough) nodes over {a,b,2,0.5} with all 8 binary operators, unary minus, sqr, sqrt (three renderings incl. implicit multiplication) on a 6x6 grid; every tree with <= 4 nodes over {a,2} with all 8 binary operators and unary minus on a 9-point grid (both tiers); thorough: every tree with exactly 5 nodes over {a,2} with = < + - * / and unary minus (the galphabet is reduced at 5 nodes to stay inside the time budget: > mirrors <, ^ leaves the exact domain); plus regrouping chains (c1 op x) op c2 / (x op c1) op c2 for every operator and 5 constants, let/if forms and sampled larger trees; exact domain = every node satisfies log2(bound)+fractional bits <= 50 (then all float64 operations and all regroupings are exact; re-checked with math/big), outside it optimizer-off must still be bit-identical to direct evaluation and optimizer-on differences are counted as rounding; permuted IsCommutative flags on fresh funcGen.New[bool]() generators, each table registered along four routes (appending, and three insertion orders through AddOpBehind) that must yield the same priority list; non-trivial = >= 2 operator nodes and at least one variable (floats: and at least one in-domain assignment); enumerated trees are distinct by construction"
+	c.rule = "bounded-exhaustive on the implementation: every boolean expression with <= 3 (quick) / <= 4 (thorough) operator nodes (prefix !, binary ^ = | &) over {a,b,c,true,false}, minimal-parenthesis and fully parenthesised renderings, plus every let/if form with <= 2 / <= 3 nodes (let names fresh, by nesting depth; the 3-node forms with minimal parentheses only), x all 8 assignments x optimizer on/off (separate child processes), against direct evaluation of the tree; float expressions: every tree with <= 2 (quick) / <= 3 (thorough) nodes over {a,b,2,0.5} with all 8 binary operators, unary minus, sqr, sqrt (three renderings incl. implicit multiplication) on a 6x6 grid; every tree with <= 4 nodes over {a,2} with all 8 binary operators and unary minus on a 9-point grid (both tiers); thorough: every tree with exactly 5 nodes over {a,2} with = < + - * / and unary minus (the galphabet is reduced at 5 nodes to stay inside the time budget: > mirrors <, ^ leaves the exact domain); plus regrouping chains (c1 op x) op c2 / (x op c1) op c2 for every operator and 5 constants, let/if forms and sampled larger trees; exact domain = every node satisfies log2(bound)+fractional bits <= 50 (then all float64 operations and all regroupings are exact; re-checked with math/big), outside it optimizer-off must still be bit-identical to direct evaluation and optimizer-on differences are counted as rounding; permuted IsCommutative flags on fresh funcGen.New[bool]() generators, each table registered along four routes (appending, and three insertion orders through AddOpBehind) that must yield the same priority list; non-trivial = >= 2 operator nodes and at least one variable (floats: and at least one in-domain assignment); enumerated trees are distinct by construction; plus (c19x.go) 31 programs over host functions of 3 and 4 parameters and variadic Go functions (AddGoFunction) with binding constructs in every argument position and nested calls, against the plain arithmetic they denote on a 4x4x4 grid, optimizer on/off, on a fresh stack and on one stack reused by all evaluations"
 	c.assume = append(c.assume,
 		"float theorems are about exact arithmetic (Rat); float64 coincides with it on the exact domain defined in the rule (checked with math/big on every explicit case and on every n-th enumerated case)",
 		"the parser stage (text -> AST) is C03's theorem; here it is exercised exhaustively up to the node bound, not composed in Lean",
@@ -1438,6 +1438,8 @@ func runC19(c *Ctx) {
 	c.extra["bool_expression_counts_by_nodes"] = bt
 
 	// ---- correspondence with the Lean model on the explicit cases
+	// host functions of three and four parameters, variadic Go functions (c19x.go)
+	c19HostFunctions(c)
 	c19Model(c, "bool", explicitBy["bool"], "a b c", nil)
 	c19Model(c, "minimal", explicitBy["float"], "a b", expGrid)
 
